@@ -80,14 +80,14 @@ pub trait ExtX: FieldX {
 impl<F: Field> CircuitBuilder<F> {
     #[verifier::external_body]
     pub fn decompose_ext_to_base_coeffs<BF>(&mut self, x: ExprId) -> (r: Result<Vec<ExprId>, CircuitBuilderError>)
-        ensures final(self).extends(old(self)), r is Ok, final(self).chain@ == old(self).chain@,
+        ensures final(self).extends(old(self)), r is Ok, final(self).chain@ == old(self).chain@, final(self).row@ == old(self).row@,
                 r matches Ok(v) ==> final(self).has_all(v@) && final(self).vals_of(v@) == coeffs_of(old(self).val(x)),
                 // taint: the coefficients are the unique base-field decomposition of a pinned element
                 r matches Ok(v) ==> (old(self).bound(x) ==> final(self).all_bound(v@))
     { unimplemented!() }
     #[verifier::external_body]
     pub fn recompose_base_coeffs_to_ext<BF>(&mut self, coeffs: &[ExprId]) -> (r: Result<ExprId, CircuitBuilderError>)
-        ensures final(self).extends(old(self)), final(self).chain@ == old(self).chain@,
+        ensures final(self).extends(old(self)), final(self).chain@ == old(self).chain@, final(self).row@ == old(self).row@,
                 r is Ok <==> coeffs@.len() == sp_dim::<F>(),
                 r matches Ok(t) ==> final(self).has(t) && final(self).val(t) == ext_of(old(self).vals_of(coeffs@)),
                 r matches Ok(t) ==> (old(self).all_bound(coeffs@) ==> final(self).bound(t))
